@@ -2,9 +2,10 @@ import PortusModel.Lemmas.AcceptValue
 /-!
 # C20, acceptance (continued): the declaration pass, the `def` preamble, the main theorem
 
-`WellTyped` lets through plain assignments used as values inside expressions (`Typing.typeOfV`); the former
-check (`WellTypedStratified`) is its restriction to stratified programs (`wellTyped_eq`,
-`wellTyped_mono`).
+`WellTyped` lets through assignments – plain or guarded (`if` / `!if` / `ewma` into a declared variable) –
+used as values inside expressions and inside `when` conditions (`Typing.typeOfG`, `Typing.typeOfV`,
+`Typing.checkCondV`); the former check (`WellTypedStratified`) is its restriction to stratified programs
+(`wellTyped_eq`, `wellTyped_mono`).
 -/
 namespace Portus.Lang.Typing
 open Portus Portus.Lang
@@ -530,6 +531,67 @@ theorem hazardSrc_wellTyped : wtSrc hazardSrc = some true ∧ inOracleSrc hazard
 theorem hazardSrc_accepted : ∃ bin sc img, compile 0 hazardSrc [] = .ok (bin, sc) ∧ bin.serialize = .ok img :=
   wtSrc_accepted 0 _ hazardSrc_wellTyped.1
 
+/-! ### Guarded assignments used as values, assignments inside conditions (kernel-checked) -/
+
+/-- a **guarded assignment used as a value**: `(:= Report.b (if c 5))` as an operand of `+`; then an `ewma`
+and a `!if` assignment as the two operands of one operator (the second reads what the first assigned),
+the latter into a control variable -/
+def guardedValueSrc : List Char :=
+  ("(def (Report (a 0) (b 0)) (c 1))" ++
+   "(when true (:= Report.a (+ 1 (:= Report.b (if (> Ack.bytes_acked 0) 5))))" ++
+   " (:= Report.a (+ (:= Report.b (ewma 2 Ack.bytes_acked)) (:= c (!if (> Report.b 3) Cwnd)))))").toList
+
+/-- it is well typed (the former check refused it, and it is outside the fragment of the semantic
+theorem) … -/
+theorem guardedValueSrc_wellTyped :
+    wtSrc guardedValueSrc = some true ∧ wtSrcStratified guardedValueSrc = some false ∧
+      inOracleSrc guardedValueSrc = some false := by
+  decide +kernel
+
+/-- … hence accepted, by the theorem -/
+theorem guardedValueSrc_accepted :
+    ∃ bin sc img, compile 0 guardedValueSrc [] = .ok (bin, sc) ∧ bin.serialize = .ok img :=
+  wtSrc_accepted 0 _ guardedValueSrc_wellTyped.1
+
+/-- guarded assignments nest: one inside the condition operand of another, one as the value operand
+of another -/
+def guardedNestSrc : List Char :=
+  ("(def (Report (a 0) (b 0)))" ++
+   "(when true (:= Report.a (if (> (:= Report.b (ewma 2 Ack.bytes_acked)) 0) (:= Report.b (!if false 1)))))").toList
+
+theorem guardedNestSrc_wellTyped : wtSrc guardedNestSrc = some true := by decide +kernel
+
+theorem guardedNestSrc_accepted :
+    ∃ bin sc img, compile 0 guardedNestSrc [] = .ok (bin, sc) ∧ bin.serialize = .ok img :=
+  wtSrc_accepted 0 _ guardedNestSrc_wellTyped
+
+/-- an **assignment inside a `when` condition**, to a declared Bool variable; the top node of the
+condition is an operator -/
+def condBindSrc : List Char :=
+  ("(def (Report (a 0)) (flagvar false))" ++
+   "(when (&& (:= flagvar (> Ack.bytes_acked 0)) true) (:= Report.a 1) (report))").toList
+
+theorem condBindSrc_wellTyped : wtSrc condBindSrc = some true ∧ wtSrcStratified condBindSrc = some false := by
+  decide +kernel
+
+theorem condBindSrc_accepted :
+    ∃ bin sc img, compile 0 condBindSrc [] = .ok (bin, sc) ∧ bin.serialize = .ok img :=
+  wtSrc_accepted 0 _ condBindSrc_wellTyped.1
+
+/-- a condition that **creates a local** (`x`), read by the body of the same event and by the condition
+of the next one: the environment is threaded through the condition into the body; and a guarded
+assignment inside a condition -/
+def condLocalSrc : List Char :=
+  ("(def (Report (a 0) (f false)))" ++
+   "(when (> (:= x 1) 0) (:= Report.a x) (report))" ++
+   "(when (|| (:= Report.f (if (< x 5) true)) false) (report))").toList
+
+theorem condLocalSrc_wellTyped : wtSrc condLocalSrc = some true := by decide +kernel
+
+theorem condLocalSrc_accepted :
+    ∃ bin sc img, compile 0 condLocalSrc [] = .ok (bin, sc) ∧ bin.serialize = .ok img :=
+  wtSrc_accepted 0 _ condLocalSrc_wellTyped
+
 -- tests (`#guard`): more nestings the check lets through
 #guard wtSrc "(def (Report (b 0))) (when true (:= a (:= b2 1)) (:= Report.b (+ a b2)))".toList == some true
 #guard wtSrc "(def (Report (b 0))) (when true (:= Report.b (if (> (:= x 1) 0) x)))".toList == some true
@@ -546,6 +608,27 @@ theorem hazardSrc_accepted : ∃ bin sc img, compile 0 hazardSrc [] = .ok (bin, 
 #guard wtSrc "(def (Report (b 0))) (when true (:= Report.b (+ (:= x 2147483648) 0)))".toList == some false
 #guard wtSrc "(def (Report (b 0))) (when true (:= c (+ (:= Ack.now 5) 1)))".toList == some false
 #guard wtSrc "(def (Report (b 0))) (when true (:= x (+ x (:= x 1))))".toList == some false
+
+-- tests (`#guard`): guarded assignments as values and assignments in conditions
+#guard wtSrc "(def (Report (a 0) (b 0))) (when true (:= Report.a (:= Report.b (if true 1))))".toList == some true
+#guard wtSrc "(def (Report (a 0) (b 0))) (when true (:= Report.a (- (:= Report.b (if true (:= y 1))) y)))".toList == some true
+#guard wtSrc "(def (Report (a 0) (b true))) (when true (:= Report.a (if (:= Report.b (if true 1)) 1)))".toList == some true
+#guard wtSrc "(def (Report (a 0) (b true))) (when true (:= Report.a (if (:= Report.b (ewma 1 1)) 1)))".toList == some true
+#guard wtSrc "(def (Report (a 0) (b true))) (when true (:= Report.a (+ (:= Report.b (ewma 1 1)) 1)))".toList == some false
+#guard wtSrc "(def (Report (a 0))) (when (> (:= x (:= y 1)) 0) (:= Report.a (+ x y)))".toList == some true
+#guard wtSrc "(def (Report (a 0))) (when (== (:= Report.a (ewma 2 Ack.now)) 0) (report))".toList == some true
+-- the eight temporaries of a condition, nested assignments included; the six locals, wherever created
+#guard wtSrc ("(def (Report (a 0))) (when (> (:= x " ++
+      "(+ 1 (+ 1 (+ 1 (+ 1 (+ 1 (+ 1 (+ 1 1)))))))) 0) (report))").toList == some true
+#guard wtSrc ("(def (Report (a 0))) (when (> (:= x " ++
+      "(+ 1 (+ 1 (+ 1 (+ 1 (+ 1 (+ 1 (+ 1 (+ 1 1))))))))) 0) (report))").toList == some false
+#guard wtSrc ("(def (Report (b 0))) (when (> (+ (:= l1 1) (+ (:= l2 1) (+ (:= l3 1) (:= l4 1)))) 0) " ++
+  "(:= l5 1) (:= l6 1))").toList == some true
+#guard wtSrc ("(def (Report (b 0))) (when (> (+ (:= l1 1) (+ (:= l2 1) (+ (:= l3 1) (:= l4 1)))) 0) " ++
+  "(:= l5 1) (:= l6 1) (:= l7 1))").toList == some false
+-- literals inside conditions and guarded operands are checked
+#guard wtSrc "(def (Report (a 0))) (when (> (:= x 2147483648) 0) (report))".toList == some false
+#guard wtSrc "(def (Report (a 0) (b 0))) (when true (:= Report.a (+ 1 (:= Report.b (if true 2147483648)))))".toList == some false
 
 /-! ### Ill-typed programs are refused by the check (and, here, by the compiler or the encoder) -/
 
@@ -638,15 +721,54 @@ theorem nested_retyping :
 
 #guard accepted "(def (Report (a 0))) (when true (:= x (> (:= x 1) 0)) (:= y (&& x true)))"
 
-/- not restrictions of the compiler but of the check (it is sufficient, not necessary): the compiler
-also accepts a conditional / ewma assignment used as a value, an assignment inside a `when` condition,
-and the copy of a never-assigned name; the check refuses them. -/
-#guard wtSrc "(def (Report (b 0))) (when true (:= Report.b (+ (:= Report.b (if true 1)) 1)))".toList == some false
+/-- **the placeholder of a guarded form has one consumer.** `(if c v)`, `(!if c v)`, `(ewma a v)` compile to
+an instruction without result register and yield `Reg::None`; only the `Op::Bind` arm with a Report /
+control register on its left accepts that (`bindGuarded`, `guardedTargetDeclared`). A bare guarded form
+as an operand, or a guarded assignment to `Cwnd` / a local used as a value, is rejected – by the
+compiler and by the check; the guarded assignment to a declared variable is a value. -/
+theorem finding_placeholder_operand :
+    rejected "(def (Report (a 0))) (when true (:= Report.a (+ 1 (if true 5))))" = true ∧
+    rejected "(def (Report (a 0))) (when true (:= Report.a (+ 1 (:= Cwnd (if true 5)))))" = true ∧
+    rejected "(def (Report (a 0))) (when true (:= Report.a (+ 1 (:= x (if true 5)))))" = true ∧
+    wtSrc "(def (Report (a 0))) (when true (:= Report.a (+ 1 (if true 5))))".toList = some false ∧
+    wtSrc "(def (Report (a 0))) (when true (:= Report.a (+ 1 (:= Cwnd (if true 5)))))".toList = some false ∧
+    wtSrc "(def (Report (a 0))) (when true (:= Report.a (+ 1 (:= Report.a (if true 5)))))".toList = some true := by
+  decide +kernel
+
+#guard wtSrc "(def (Report (a 0))) (when true (:= Report.a (+ 1 (:= x (if true 5)))))".toList == some false
+#guard accepted "(def (Report (a 0))) (when true (:= Report.a (+ 1 (:= Report.a (if true 5)))))"
+
+/-- **`noBindCondition`.** A `when` condition whose *top node* is an assignment is rejected by
+`compile_flag`: the value of the flag block is then the register of the target, not a temporary, and
+there is no last instruction whose result could be redirected to `__eventFlag`. The same assignment
+*below* the top operator is accepted (`condBindSrc` above); so is one wrapped as `(&& … true)`. A
+guarded form at the top is no value at all. The check mirrors all three. -/
+theorem finding_bind_condition :
+    rejected "(def (Report (a 0)) (flagvar false)) (when (:= flagvar (> Ack.bytes_acked 0)) (report))" = true ∧
+    wtSrc "(def (Report (a 0)) (flagvar false)) (when (:= flagvar (> Ack.bytes_acked 0)) (report))".toList
+      = some false ∧
+    rejected "(def (Report (a 0))) (when (if true true) (report))" = true ∧
+    wtSrc "(def (Report (a 0))) (when (if true true) (report))".toList = some false := by
+  decide +kernel
+
+#guard accepted "(def (Report (a 0)) (flagvar false)) (when (&& (:= flagvar (> Ack.bytes_acked 0)) true) (report))"
+#guard wtSrc "(def (Report (a 0)) (flagvar false)) (when (&& (:= flagvar (> Ack.bytes_acked 0)) true) (report))".toList == some true
+
+/- formerly refused by the check, now let through (and accepted, by the theorem): a conditional / ewma
+assignment used as a value, an assignment inside a `when` condition. -/
+#guard wtSrc "(def (Report (b 0))) (when true (:= Report.b (+ (:= Report.b (if true 1)) 1)))".toList == some true
 #guard accepted "(def (Report (b 0))) (when true (:= Report.b (+ (:= Report.b (if true 1)) 1)))"
-#guard wtSrc "(def (Report (b 0))) (when (> (:= x 1) 0) (report))".toList == some false
+#guard wtSrc "(def (Report (b 0))) (when (> (:= x 1) 0) (report))".toList == some true
 #guard accepted "(def (Report (b 0))) (when (> (:= x 1) 0) (report))"
+
+/- not restrictions of the compiler but of the check (it is sufficient, not necessary): the compiler
+also accepts the copy of a never-assigned name (both locals stay *untyped* – usable as the right-hand
+side of another copy only – until something assigns them), and it does not look at the operand types of
+`if` / `!if` / `ewma` (`guardOk`: it only wants two values); the check refuses both. -/
 #guard wtSrc "(def (Report (b 0))) (when true (:= x (:= y x)))".toList == some false
 #guard accepted "(def (Report (b 0))) (when true (:= x (:= y x)))"
+#guard wtSrc "(def (Report (a 0))) (when true (:= Report.a (if 1 1)))".toList == some false
+#guard accepted "(def (Report (a 0))) (when true (:= Report.a (if 1 1)))"
 
 /-- **`notReadOnly`** (expected): primitives cannot be assigned. -/
 theorem primitives_read_only : rejected "(def (Report (acked 0))) (when true (:= Ack.now 1))" = true := by
